@@ -2,6 +2,7 @@ package main
 
 import (
 	"fmt"
+	"os"
 	"go/ast"
 	"go/constant"
 	"go/token"
@@ -71,6 +72,7 @@ type Unit struct {
 	hparents  map[string][]string
 	qsorts    map[string]string
 	readLog   map[string]string
+	monitorHook func(fr *Frame, name string, st *State, args []*Val, pos token.Pos)
 	ospecDone map[string]bool
 }
 
@@ -488,6 +490,69 @@ func (fr *Frame) collectNames() {
 				amb[id.Name] = true
 			}
 			fr.nameVals[id.Name] = d.X
+		}
+	}
+	// instantiations of generic functions carry no debug references: map the origin's through positions
+	if org := fr.fn.Origin(); org != nil {
+		if os.Getenv("GOVC_DEBUG") != "" {
+			fmt.Fprintln(os.Stderr, "origin names for", fr.fn.Name(), len(org.Blocks))
+		}
+		// structural correspondence: same blocks, same instruction kinds once debug refs are dropped
+		strip := func(b *ssa.BasicBlock) []ssa.Instruction {
+			var out []ssa.Instruction
+			for _, in := range b.Instrs {
+				if _, ok := in.(*ssa.DebugRef); !ok {
+					out = append(out, in)
+				}
+			}
+			return out
+		}
+		corr := map[ssa.Value]ssa.Value{}
+		okAll := len(org.Blocks) == len(fr.fn.Blocks)
+		if okAll {
+			for i := range org.Blocks {
+				oi, ni := strip(org.Blocks[i]), strip(fr.fn.Blocks[i])
+				if len(oi) != len(ni) {
+					okAll = false
+					break
+				}
+				for j := range oi {
+					if fmt.Sprintf("%T", oi[j]) != fmt.Sprintf("%T", ni[j]) {
+						okAll = false
+						break
+					}
+					if ov, ok := oi[j].(ssa.Value); ok {
+						corr[ov] = ni[j].(ssa.Value)
+					}
+				}
+			}
+		}
+		if okAll {
+			for i, p := range org.Params {
+				if i < len(fr.fn.Params) {
+					corr[p] = fr.fn.Params[i]
+				}
+			}
+			for _, b := range org.Blocks {
+				for _, in := range b.Instrs {
+					d, ok := in.(*ssa.DebugRef)
+					if !ok || d.IsAddr {
+						continue
+					}
+					id, ok := d.Expr.(*ast.Ident)
+					if !ok {
+						continue
+					}
+					v, ok := corr[d.X]
+					if !ok {
+						continue
+					}
+					if old, ok := fr.nameVals[id.Name]; ok && old != v {
+						amb[id.Name] = true
+					}
+					fr.nameVals[id.Name] = v
+				}
+			}
 		}
 	}
 	for n := range amb {
